@@ -27,6 +27,14 @@ class _Resp:
         self.status = status
 
 
+class PrefixedError(Exception):
+    """a constructor that accepts its own args back but rewrites them (adds a prefix, folds in a default)"""
+
+    def __init__(self, msg, limit=10):
+        super().__init__('[app] %s (limit %s)' % (msg, limit))
+        self.limit = limit
+
+
 class WrapError(Exception):
     """the common "wrap a response" shape: replaying the constructor with e.args raises AttributeError, not TypeError"""
 
@@ -47,6 +55,8 @@ def _mk_exc(kind, idx, opi=0):
         return e
     if kind == 'Wrap':
         return WrapError(_Resp((idx, 'w%d' % opi)))
+    if kind == 'Prefix':
+        return PrefixedError('bad value %s in op%d' % (idx, opi), limit=3)
     if kind == 'SystemExit':
         return SystemExit(3, opi)
     if kind == 'KeyError':
